@@ -99,7 +99,7 @@ func runCheck(prop, repo, verif, tier, work string, tmo int, verbose bool, updat
 		}
 	}
 	sort.Strings(keys)
-	if len(keys) == 0 {
+	if len(keys) == 0 && prop != "C07" {
 		fmt.Fprintf(os.Stderr, "govc: no contract carries property %s\n", prop)
 		return 2
 	}
@@ -185,6 +185,28 @@ func runCheck(prop, repo, verif, tier, work string, tmo int, verbose bool, updat
 			}
 		}
 	}
+	if prop == "C07" {
+		// effect contract "deterministic" over the call graph of the consensus entry points
+		eobs, enotes, eass := effectScan(prog, cs)
+		rep := &FuncReport{Key: "effects", Obligs: eobs}
+		for _, n := range enotes {
+			notes[n] = true
+		}
+		for _, a := range eass {
+			notes[a] = true
+		}
+		for _, o := range eobs {
+			seen[o.Name] = true
+			all = append(all, o)
+			nObl++
+			if o.Status == "discharged" {
+				nDis++
+			} else {
+				failures = append(failures, failure{name: o.Name, rep: rep, o: o, reason: o.Output})
+			}
+		}
+		funcs = append(funcs, fmt.Sprintf("(effect scan: %d entry points)", countEntries(eobs)))
+	}
 	// contract-derived obligations of the baseline must still be generated
 	for _, bn := range baseline[prop] {
 		if seen[bn] {
@@ -194,7 +216,7 @@ func runCheck(prop, repo, verif, tier, work string, tmo int, verbose bool, updat
 		if i := strings.LastIndex(bn, "/"); i >= 0 {
 			kind = bn[i+1:]
 		}
-		if strings.HasPrefix(kind, "ensures.") || strings.HasPrefix(kind, "loop") || strings.HasPrefix(kind, "cover.") || strings.HasPrefix(kind, "frame.") {
+		if strings.HasPrefix(kind, "ensures.") || strings.HasPrefix(kind, "loop") || strings.HasPrefix(kind, "cover.") || strings.HasPrefix(kind, "frame.") || strings.HasPrefix(kind, "effects.") {
 			dup := false
 			for _, f := range failures {
 				if strings.HasPrefix(bn, strings.SplitN(f.name, "/", 3)[0]) && (strings.HasSuffix(f.name, "target_missing") || strings.HasSuffix(f.name, "out_of_subset")) {
@@ -350,6 +372,9 @@ var standingAssumptions = []string{
 // tryReplay regenerates the failing instance, looks for candidate inputs and replays them on the real code.
 func tryReplay(prog *Program, cs *ContractSet, rep *FuncReport, o *ObligSummary, repo, verif, work string, rr *ReplayResult) bool {
 	con := rep.Contract
+	if con == nil {
+		return false
+	}
 	fn := prog.Funcs[con.Key]
 	if fn == nil {
 		return false
@@ -448,4 +473,14 @@ func tryCanary(obligation, repo, verif, work string, rr *ReplayResult) bool {
 		return true
 	}
 	return false
+}
+
+func countEntries(obs []*ObligSummary) int {
+	n := 0
+	for _, o := range obs {
+		if strings.HasSuffix(o.Name, "/effects.deterministic_sources") {
+			n++
+		}
+	}
+	return n
 }
